@@ -55,9 +55,9 @@ func TestC10_KeyExchangeSweep(t *testing.T) {
 }
 
 func TestC10_KeyExchangeMix(t *testing.T) {
-	q, th := 60, 1500
+	q, th := 150, 8000
 	if h.Cfg == "purego" {
-		q, th = 12, 400
+		q, th = 30, 1600
 	}
 	h.Prop(t, h.P{Name: "kx-mix", Quick: q, Thorough: th}, func(t *rapid.T) kxCase {
 		return kxCase{
